@@ -133,6 +133,8 @@ class MilStream(Stream):
         # the harness runs every call a second time with output buffers pre-filled with a5 and watches its input slices
         if o.get("mutated_inputs"):
             return "the library wrote into its input(s) %s" % ", ".join(o["mutated_inputs"])
+        if o.get("subset_mismatch"):
+            return "F2345 asked for a subset of its outputs gives other values than when asked for all: %s" % "; ".join(o["subset_mismatch"][:4])
         if o.get("depends_on_buffer_contents"):
             return "output(s) %s depend on what the caller's output buffer held before the call" % ", ".join(o["depends_on_buffer_contents"])
         return None
